@@ -314,7 +314,7 @@ class Domain:
 
 class Interp:
     MAX_PATHS = 3000
-    MAX_DEPTH = 8
+    MAX_DEPTH = 16
 
     def __init__(self, db, domain):
         self.db = db
@@ -332,6 +332,7 @@ class Interp:
         self.globals_cache = {}
         self.depth = 0
         self.callstack = []
+        self.fwd = {}           # id(old abstract array) -> (old, new) after an in-place operation
 
     def choose(self, n, label=''):
         i = len(self.trace)
@@ -748,6 +749,12 @@ class Interp:
         r = self.dom.augassign(st.op, cur, val, st)
         if r is None:
             r = self.binop(st.op, cur, val, st)
+        # an in-place operation on an array is seen through every alias of that array (another local bound by a plain
+        # copy, an element of an argument tuple, the caller's variable when a helper shifts its argument in place):
+        # the old abstract value forwards to the new one
+        if isinstance(st.target, ast.Name) and isinstance(cur, Value) and r is not cur and type(cur).__module__ != __name__ \
+                and getattr(self.dom, 'alias_inplace', True):
+            self.fwd[id(cur)] = (cur, r)
         self.assign(st.target, r, frame, st, aug=True)
 
     def st_Delete(self, st, frame):
@@ -949,11 +956,20 @@ class Interp:
     def ev_Name(self, node, frame):
         return self.lookup(node.id, frame, node)
 
+    def deref(self, v):
+        """follow in-place updates: the current abstract value of the array object `v` denotes."""
+        n = 0
+        while id(v) in self.fwd and self.fwd[id(v)][0] is v and n < 64:
+            v = self.fwd[id(v)][1]
+            n += 1
+        return v
+
     def lookup(self, name, frame, node=None):
         f = frame
         while f is not None:
             if name in f.env:
-                return f.env[name]
+                v = f.env[name]
+                return self.deref(v) if self.fwd else v
             f = f.parent
         return self.lookup_global(name, frame.module, node)
 
@@ -1013,7 +1029,7 @@ class Interp:
                 return v
         if isinstance(o, Obj):
             if name in o.attrs:
-                return o.attrs[name]
+                return self.deref(o.attrs[name]) if self.fwd else o.attrs[name]
             mi = self.db.method(o.ci, name)
             if mi is not None:
                 if 'property' in mi.decorators:
@@ -1296,7 +1312,7 @@ class Interp:
         if isinstance(o, Tup):
             if isinstance(idx, Const) and isinstance(idx.v, int):
                 if -len(o.items) <= idx.v < len(o.items):
-                    return o.items[idx.v]
+                    return self.deref(o.items[idx.v]) if self.fwd else o.items[idx.v]
                 raise AbsRaise('IndexError', node)
             if isinstance(idx, Slice) and all(isinstance(x, Const) for x in (idx.lo, idx.hi, idx.step)):
                 return Tup(o.items[slice(idx.lo.v, idx.hi.v, idx.step.v)], o.kind)
